@@ -451,7 +451,7 @@ static int ga_get(struct side *s, char *o, size_t n)
 static void ga_vs(int vi, char *o, size_t n) { snprintf(o, n, "%s", vi == 0 ? "cr_sys" : vi == 1 ? "cr_prog" : "null"); }
 
 /* buffer */
-static const uint64_t bf_vals[] = {0, 3, 100};
+static const uint64_t bf_vals[] = {0, 3, 100, 6}; /* 6: every input shape fits alone (<= 5 octets), two of the larger ones do not */
 #define BF(NAME, SETTER, GETTER)                                               \
     static int NAME##_set(struct side *s, int vi) { return SETTER(s->pipe, bf_vals[vi]); } \
     static int NAME##_get(struct side *s, char *o, size_t n)                   \
@@ -568,7 +568,7 @@ static int rap_get(struct side *s, char *o, size_t n)
 static void rap_vs(int vi, char *o, size_t n) { vs_u64(rap_vals, vi, o, n); }
 
 /* multicat_probe: rotation interval and offset; an interval of 0 is documented as invalid */
-static const uint64_t rot_vals[4][2] = {{UPIPE_MULTICAT_PROBE_DEF_ROTATE, UPIPE_MULTICAT_PROBE_DEF_ROTATE_OFFSET}, {10, 3}, {1, 0}, {0, 5}};
+static const uint64_t rot_vals[4][2] = {{UPIPE_MULTICAT_PROBE_DEF_ROTATE, UPIPE_MULTICAT_PROBE_DEF_ROTATE_OFFSET}, {10, 23}, {1, 0}, {0, 5}}; /* (10, 23): an offset beyond the interval is an absolute origin, legal */
 static int rot_set(struct side *s, int vi) { return upipe_multicat_probe_set_rotate(s->pipe, rot_vals[vi][0], rot_vals[vi][1]); }
 static int rot_get(struct side *s, char *o, size_t n)
 {
@@ -1628,7 +1628,7 @@ static const struct row rows[] = {
      .nopts = 1, .opt = {{"getattr", 3, ga_set, ga_get, ga_vs, NULL}}},
     {.name = "buffer", .kind = K_HOLD, .alloc = alloc_buffer, .expect = exp_identity, .uses_pumps = true, .bad_def = "pic.",
      .out_def_prefix = "block.", .nopts = 3,
-     .opt = {{"max_size", 3, bfmax_set, bfmax_get, bf_vs, "0"}, {"low", 3, bflow_set, bflow_get, bf_vs, "0"}, {"high", 3, bfhigh_set, bfhigh_get, bf_vs, "0"}}},
+     .opt = {{"max_size", 4, bfmax_set, bfmax_get, bf_vs, "0"}, {"low", 3, bflow_set, bflow_get, bf_vs, "0"}, {"high", 3, bfhigh_set, bfhigh_get, bf_vs, "0"}}},
     {.name = "rate_limit", .kind = K_HOLD, .alloc = alloc_rate_limit, .expect = exp_identity, .uses_pumps = true, .out_def_prefix = "block.",
      .nopts = 2, .opt = {{"limit", 3, rl_set, rl_get, rl_vs, "18446744073709551615"}, {"duration", 3, rd_set, rd_get, rd_vs, "27000000"}}},
     {.name = "qsink", .kind = K_HOLD, .alloc = alloc_qsink, .expect = exp_identity, .has_flush = true, .uses_pumps = true, .flowdef_in_band = true,
@@ -2561,7 +2561,7 @@ static void check_c05_complete(struct st *st, struct side *s)
     struct px_fix *fx = &s->fx;
     if (g_row->kind != K_HOLD || !st->ready_at_first_input || st->disturbed_after_input || st->released)
         return;
-    if (!strcmp(g_row->name, "buffer") && (st->optmodel[0] != 2 || st->opt_changed_after_input))
+    if (!strcmp(g_row->name, "buffer") && ((st->optmodel[0] != 2 && st->optmodel[0] != 3) || st->opt_changed_after_input))
         return; /* max_size below the input size: documented to wait for room (until the next input) */
     for (int q = 0; q < st->nseq; q++) {
         struct expect *x = &st->exp[q];
